@@ -8,8 +8,8 @@
 //   nodes  [{path:[name..], k:"none"|"dir"|"file"|"link", c:block-like content id, abs:bool, tg:[name..]}]
 //          below the container output directory /out (parents before children); also seeded random trees
 //          made by checks/C17.py (deeper, more entries) in the same form
-//   mnt    "none" | "outside" (/mnt) | "beneath" (/out/m): a read-only collection mount whose manifest is `mount`,
-//          showing the subtree `mpath` of it (arvados.Mount.Path)
+//   mroot  the container path of a read-only collection mount ([] none; /mnt; /out/m; /out/a/m ...) whose manifest
+//          is `mount`, showing the subtree `mpath` of it (arvados.Mount.Path)
 //   sec    the container path of a secret mount ([] none; /sec; /out/s; /out/a/s ...): if it lies below /out and
 //          its parent directory exists, the secret's bytes are really there in the host directory
 // Event: {"ev":"copy","kind":"ok"|"error"|"panic","out":[stream..],"nb":[{"id":..,"segs":[[content id,off,len]..]}]}
@@ -47,7 +47,7 @@ type vC17Node struct {
 type vC17Scenario struct {
 	ID    int          `json:"id"`
 	Nodes []vC17Node   `json:"nodes"`
-	Mnt   string       `json:"mnt"`
+	MRoot [][]int      `json:"mroot"`
 	MPath [][]int      `json:"mpath"`
 	Sec   [][]int      `json:"sec"`
 	Mount []vC10Stream `json:"mount"`
@@ -182,13 +182,16 @@ func vC17Run(s *vC17Scenario) (ev vC10Ev) {
 	}
 	keep := &vC17Keep{w: w, put: map[string][]byte{}}
 	cp.keepClient = keep
-	switch s.Mnt {
-	case "outside":
-		cp.mounts["/mnt"] = arvados.Mount{Kind: "collection", PortableDataHash: vC17PDH, Path: vC17Join(s.MPath)}
-	case "beneath":
-		cp.mounts["/out/m"] = arvados.Mount{Kind: "collection", PortableDataHash: vC17PDH, Path: vC17Join(s.MPath)}
-		if err := os.Mkdir(filepath.Join(host, "m"), 0755); err != nil {
-			panic(err)
+	if len(s.MRoot) > 0 {
+		cp.mounts["/"+vC17Join(s.MRoot)] = arvados.Mount{Kind: "collection", PortableDataHash: vC17PDH, Path: vC17Join(s.MPath)}
+		if len(s.MRoot) > 1 && vC10Str(s.MRoot[0]) == "out" {
+			// the mount point: an (empty) directory in the host output dir, as the container runtime leaves it
+			hp := filepath.Join(host, vC17Join(s.MRoot[1:]))
+			if fi, err := os.Lstat(filepath.Dir(hp)); err == nil && fi.IsDir() {
+				if err := os.Mkdir(hp, 0755); err != nil {
+					panic(err)
+				}
+			}
 		}
 	}
 	if len(s.Sec) > 0 {
@@ -250,7 +253,7 @@ func TestVerifC17(t *testing.T) {
 	})
 	tw := vNewTraceWriter(os.Getenv("VERIF_TRACES"))
 	for _, s := range scns {
-		tw.Write(vC10Ev{"ev": "reset", "scn": s.ID, "nodes": s.Nodes, "mnt": s.Mnt, "mpath": s.MPath, "sec": s.Sec, "mount": s.Mount})
+		tw.Write(vC10Ev{"ev": "reset", "scn": s.ID, "nodes": s.Nodes, "mroot": s.MRoot, "mpath": s.MPath, "sec": s.Sec, "mount": s.Mount})
 		tw.Write(vC17Run(s))
 	}
 	tw.Close()
